@@ -154,8 +154,44 @@ def rule_detector_per_member(ctx: Ctx) -> None:
     ctx.ob("C13-6", "G6", None, "detector state is per instance", not cls_level, f"PhiAccrualDetector keeps its interval window on the instance (class-level containers: {cls_level})", relpath=PHI, node=det.node)
 
 
+def rule_ack_reaches_the_prober(ctx: Ctx) -> None:
+    """C13-3: every ping is answered to the node that sent it — also when that node is not (yet) in the receiver's member table (a join
+    through seed nodes).  An ack addressed to anything else (the receiver itself, as `event.target`) is dropped by the network and the
+    prober declares a live member DEAD on a loss-free network."""
+    prog = ctx.prog
+    hp = prog.func(MEM, "MembershipProtocol._handle_ping")
+    sends = [c for c in calls_in(hp.node) if path_of(c.func) == "self._network.send"]
+    need(len(sends) == 1, "C13-3: _handle_ping should send exactly one ack")
+    dest = [k.value for k in sends[0].keywords if k.arg == "destination"]
+    dtxt = unparse(expand(dest[0], single_defs(hp))).replace(" ", "") if dest else ""
+    ff = ctx.flow(hp)
+    bad = []
+    reply_defs = [s_ for s_ in walk_stmts(hp.node.body) if isinstance(s_, ast.Assign) and dest and path_of(s_.targets[0]) == path_of(dest[0])]
+    for d_ in reply_defs or []:
+        vt = unparse(d_.value).replace(" ", "")
+        known = ff.holds_at(node_of(ff.cfg, d_), Fact("in", "sender", "self._members"))
+        if known and vt != "self._members[sender].entity":
+            bad.append(f"known sender answered via `{vt}`")
+        if not known and "from_entity" not in vt:
+            bad.append(f"unknown sender answered via `{vt}`")
+    ok = bool(dest) and ((reply_defs and not bad) or ("self._members[sender].entity" in dtxt and "from_entity" in dtxt))
+    ctx.ob("C13-3", "G7", hp, sends[0], bool(ok), "_handle_ping addresses the ack to the sender: its table entry when known, else the entity reference carried by the ping (`from_entity`) — never to itself"
+           + ("" if not bad else " — " + "; ".join(bad)))
+    # and every ping carries that reference
+    n = 0
+    for fn in prog.module(MEM).all_functions:
+        for c in calls_in(fn.node):
+            if path_of(c.func) == "self._network.send" and any(k.arg == "event_type" and isinstance(k.value, ast.Constant) and k.value.value in ("MembershipPing", "MembershipIndirectPing") for k in c.keywords):
+                n += 1
+                pl = [k.value for k in c.keywords if k.arg == "payload"]
+                keys = {kk.value for kk in pl[0].keys if isinstance(kk, ast.Constant)} if pl and isinstance(pl[0], ast.Dict) else set()
+                ctx.ob("C13-3", "G8", fn, c, "from_entity" in keys, f"{fn.qual}: a ping carries a reference to its sender (`from_entity`) so that a receiver that does not know the sender yet can answer")
+    need(n >= 1, "C13-3: no ping send site found")
+
+
 def run(ctx: Ctx) -> None:
     prog = ctx.prog
+    ctx.guarded(rule_ack_reaches_the_prober)
     ctx.guarded(rule_detector_per_member)
     ctx.guarded(rule_phi_shape)
     ctx.guarded(rule_probe_failure_suspects)
@@ -248,6 +284,7 @@ def run(ctx: Ctx) -> None:
 
 
 MUTANTS = [
+    ("ack-to-unknown-sender-goes-to-self", MEM, "            reply_to = metadata.get(\"from_entity\", event.target)", "            reply_to = event.target", "C13-3"),
     ("members-share-one-detector", MEM, "            detector=PhiAccrualDetector(\n                threshold=self._phi_threshold,\n                initial_interval=self._probe_interval,\n            ),\n", "            detector=self._shared_detector,\n", "C13-6"),
     ("no-indirect-probes-no-suspicion", MEM, "        # Pick random delegates (excluding self and target)", "        if self._indirect_probe_count <= 0:\n            return []\n        # Pick random delegates (excluding self and target)", "C13-3"),
     ("probe-failure-does-not-suspect", MEM, "        self._suspect_member(info, self.now.to_seconds())\n", "", "C13-3"),
